@@ -11,6 +11,9 @@ CONSTANTS
   Sym = FALSE
   NCallers = 0
   Removal = "skip"
-  Emit = "all"
+  MaxTwice = 0
+  SetRace = "unlocked"
+  Pick = 6
+  Emit = "terminal"
 INVARIANTS TypeOK Gone R0ok R1ok R2ok R3ok R4ok R6ok
 CHECK_DEADLOCK FALSE
